@@ -337,7 +337,10 @@ func ruleGSize(c *Ctx) {
 	}
 	acc, over, guard, elem, ok := condSumLoop(c.P, fn)
 	if !ok {
-		c.Undecided("G-size", "Tx.SizeWithTypes", fn.Pos(), "data-byte loop not of the form  n := 0; for range Outputs { if IsData { n += len(script) } }")
+		// the sizes may be added up from field widths instead of measured on the serialisation
+		if why := gSizeBySums(c, fn); why != "" {
+			c.Undecided("G-size", "Tx.SizeWithTypes", fn.Pos(), "data-byte loop not of the form  n := 0; for range Outputs { if IsData { n += len(script) } }; and as sums of field widths: "+why)
+		}
 		return
 	}
 	c.Check(over == "p0.Outputs" && guard == "IsData(p0.Outputs[i].LockingScript)" && elem == "len(*p0.Outputs[i].LockingScript)", "G-size", "Tx.SizeWithTypes/data-bytes", fn.Pos(),
@@ -686,6 +689,93 @@ func estimateSizeIsSizeOfEstimate(c *Ctx) string {
 	}
 	if n == 0 {
 		return "EstimateSizeWithTypes has no success path"
+	}
+	return ""
+}
+
+// gSizeBySums: SizeWithTypes and Size when the numbers are added up from field widths (possibly in a shared
+// helper): TotalBytes and Size() are the length of the layout engine W extracts from Tx.Bytes, TotalDataBytes is
+// the sum over the outputs with IsData(script) of len(script), TotalStdBytes is their difference. "" when all
+// obligations were raised (passed or failed); a reason when the shape could not be read.
+func gSizeBySums(c *Ctx, fn *ssa.Function) string {
+	bytesFn := c.P.Func("", "*Tx", "Bytes")
+	if bytesFn == nil {
+		return "Tx.Bytes not found"
+	}
+	lay := evalWith(c, bytesFn, nil, nil)
+	if u, why := lay.hasUnknown(); u {
+		return "the layout of Tx.Bytes is not known: " + why
+	}
+	want, why := layLen(canonLay(lay))
+	if want == nil {
+		return "length of the layout: " + why
+	}
+	wantS := want.norm().String()
+	vals := map[string]ssa.Value{}
+	for _, b := range fn.Blocks {
+		for _, ins := range b.Instrs {
+			if st, ok := ins.(*ssa.Store); ok {
+				if fa, ok := st.Addr.(*ssa.FieldAddr); ok && namedOf(fa.X.Type()) == "TxSize" {
+					v := st.Val
+					for {
+						cv, ok := v.(*ssa.Convert)
+						if !ok {
+							break
+						}
+						v = cv.X
+					}
+					vals[fieldName(fa.X.Type(), fa.Field)] = v
+				}
+			}
+		}
+	}
+	tot, data, std := vals["TotalBytes"], vals["TotalDataBytes"], vals["TotalStdBytes"]
+	if tot == nil || data == nil || std == nil {
+		return "the TxSize fields are not all stored"
+	}
+	ev := &sumEval{w: newWEval(c.P, fn)}
+	gotTot, why := ev.eval(tot)
+	if gotTot == nil {
+		return "TotalBytes: " + why
+	}
+	gotData, why := ev.eval(data)
+	if gotData == nil {
+		return "TotalDataBytes: " + why
+	}
+	gt := gotTot.norm().String()
+	c.Check(gt == wantS, "G-size", "Tx.SizeWithTypes/TotalBytes", fn.Pos(), "TotalBytes = the length of the serialisation, added up field by field: "+shorten(gt, 200),
+		fmt.Sprintf("SizeWithTypes adds up %s, the serialisation Tx.Bytes writes is %s long", shorten(gt, 300), shorten(wantS, 300)))
+	gd := gotData.norm()
+	okData := len(gd.sums) == 1 && gd.c.Sign() == 0 && len(gd.atoms) == 0 && len(gd.sels) == 0 && gd.sums[0].coll == "p0.Outputs"
+	if okData {
+		b := gd.sums[0].body
+		okData = b.c.Sign() == 0 && len(b.atoms) == 0 && len(b.sums) == 0 && len(b.sels) == 1 &&
+			strings.Contains(b.sels[0].cond, "IsData(p0.Outputs[i].LockingScript)") && !strings.HasPrefix(b.sels[0].cond, "!") &&
+			b.sels[0].a.String() == "len(*p0.Outputs[i].LockingScript)" && b.sels[0].b.String() == "0"
+	}
+	c.Check(okData, "G-size", "Tx.SizeWithTypes/data-bytes", fn.Pos(), "data bytes = sum over all outputs with IsData(script) of len(script)",
+		"data bytes are "+shorten(gd.String(), 300)+"; specified: sum over p0.Outputs of len(*script) where IsData(script)")
+	okStd := false
+	if bo, ok := std.(*ssa.BinOp); ok && bo.Op == token.SUB {
+		okStd = bo.X == tot && bo.Y == data
+	}
+	c.Check(okStd, "G-size", "Tx.SizeWithTypes/TotalStdBytes", fn.Pos(), "TotalStdBytes = TotalBytes - TotalDataBytes (so std + data = total)", "TotalStdBytes is not TotalBytes - TotalDataBytes")
+	if sz := c.P.Func("", "*Tx", "Size"); sz != nil {
+		okSize, detail := false, ""
+		if r := singleResult(sz, 0); r != nil {
+			if atomName(newTermEnv().Term(r)) == "len((*bt.Tx).Bytes(p0))" {
+				okSize = true
+			} else {
+				e2 := &sumEval{w: newWEval(c.P, sz)}
+				if got, why := e2.eval(r); got != nil {
+					detail = got.norm().String()
+					okSize = detail == wantS
+				} else {
+					detail = why
+				}
+			}
+		}
+		c.Check(okSize, "G-size", "Tx.Size", sz.Pos(), "Size() = the length of the serialisation", "Size() is no longer the length of the serialisation: "+shorten(detail, 300)+" against "+shorten(wantS, 300))
 	}
 	return ""
 }
